@@ -59,8 +59,9 @@ func instrConfig(outDir string) *instrument.Config {
 			{File: "transport/mux/establisher.go", Pkg: "net", Name: "DialTimeout", NewPkg: "vsim/simnet", NewName: "DialTimeout"},
 		},
 		InPkg: map[string]string{
-			modPath + "/proxy":         filepath.Join(sim, "inpkg", "proxy"),
-			modPath + "/transport/mux": filepath.Join(sim, "inpkg", "mux"),
+			modPath + "/proxy":              filepath.Join(sim, "inpkg", "proxy"),
+			modPath + "/transport/mux":      filepath.Join(sim, "inpkg", "mux"),
+			modPath + "/transport/grpcutil": filepath.Join(sim, "inpkg", "grpcutil"),
 		},
 		BlockingFns: map[string]map[string]bool{
 			"sync":                                      {"Wait": true},
